@@ -108,7 +108,7 @@ impl<'a> Dfa<'a> {
             let edge_idx = self.graph.find_edge(current_state, next_state).unwrap();
             let current_grapheme = self.graph.edge_weight(edge_idx).unwrap();
 
-            if current_grapheme.value() != grapheme.value() {
+            if current_grapheme.chars() != grapheme.chars() {
                 continue;
             }
 
@@ -216,7 +216,7 @@ impl<'a> Dfa<'a> {
             for parent_state in direct_parent_states {
                 let edge = self.graph.find_edge(parent_state, state).unwrap();
                 let grapheme = self.graph.edge_weight(edge).unwrap();
-                if grapheme.value() == label.value()
+                if grapheme.chars() == label.chars()
                     && (grapheme.maximum() == label.maximum()
                         || grapheme.minimum() == label.minimum())
                 {
